@@ -44,7 +44,11 @@ def _var_pool(opts):
 @st.composite
 def programs(draw, opts=None):
     """opts: dict(max_funcs, loads(bool), rt(bool), classes(bool), multiline(bool), exclude=set of feature tags)"""
-    opts = opts or {}
+    opts = dict(opts or {})
+    # shapes excluded because of an OPEN known finding of C01 are excluded for every user of the generator
+    from .. import common as _common
+
+    opts["exclude"] = set(opts.get("exclude", ())) | _common.open_features("C01")
     _assert_pool_distinct()
     nmods = draw(st.integers(1, opts.get("max_mods", 3)))
     nfuncs = draw(st.integers(2, opts.get("max_funcs", 7)))
@@ -112,7 +116,8 @@ def programs(draw, opts=None):
         n = draw(st.integers(0, maxlen))
         for k in range(n):
             kinds = ["ext"]
-            if any(v["mod"] == here_mod for v in prog["vars"]):
+            attr_vars = "var-through-module-attribute" not in opts.get("exclude", ())
+            if any(v["mod"] == here_mod or (attr_vars and v["mod"] < here_mod) for v in prog["vars"]):
                 kinds += ["var", "var"]
             if i > 0:
                 kinds += ["call", "call", "ho"]
@@ -122,8 +127,8 @@ def programs(draw, opts=None):
                 kinds.append("cls")
             kind = draw(st.sampled_from(kinds))
             if kind == "var":
-                vi = draw(st.sampled_from([vi for vi, v in enumerate(prog["vars"]) if v["mod"] == here_mod]))
-                body.append(["var", vi])
+                vi = draw(st.sampled_from([vi for vi, v in enumerate(prog["vars"]) if v["mod"] == here_mod or (attr_vars and v["mod"] < here_mod)]))
+                body.append(["var", vi] if prog["vars"][vi]["mod"] == here_mod else ["var", vi, "modattr"])
             elif kind == "ext":
                 body.append(["ext", draw(st.integers(0, 2))])
             elif kind == "call":
@@ -144,7 +149,8 @@ def programs(draw, opts=None):
                 if j is None:
                     body.append(["ext", 1])
                     continue
-                body.append(["ho", j, draw(st.sampled_from(["bare", "alias"]))])
+                ho_forms = ["bare", "alias"] if "ho-through-module-attribute" in opts.get("exclude", ()) else ["bare", "alias", "modattr", "fullattr", "modalias"]
+                body.append(["ho", j, draw(st.sampled_from(ho_forms))])
                 referenced.add(j)
                 if j in unique:
                     is_unique = True
